@@ -728,6 +728,35 @@ def d5c_raw_text(chk: Check) -> None:
                      "`r\\.s` is written as `r\\\\.s`, which parses as the "
                      "two keys `r\\` and `s`")
             return
+    # the separator that is escaped is the one the caller named: the text
+    # of the parameter itself.  The evaluator passes the separator of the
+    # path it is extending (still AUTO -- whose text is `.` -- directly
+    # under the root); "resolving" it differently here escapes one
+    # character and the `+` that follows infers the other notation.
+    chk.rule("C02-D5d", "the separator escape_path_section escapes is "
+             "str() of its own separator parameter (not a value chosen by "
+             "a test of it)", floor=1)
+    strs = [c for c in walk_local(fi.node) if isinstance(c, ast.Call) and
+            src(c.func) == "str" and len(c.args) == 1 and
+            src(c.args[0]) != sec and
+            any(isinstance(a, (ast.List, ast.Tuple, ast.Set))
+                for a in ancestors(c))]
+    if not strs:
+        raise AnalysisError("separator entry of the escape alphabet not "
+                            "found")
+    bad = [c for c in strs if src(c.args[0]) != sep]
+    if bad:
+        chk.fail("C02-D5d", fi, bad[0], "alphabet entry `{}`".format(
+            src(bad[0])),
+            "the escaped separator is `{}`, not the text of the `{}` the "
+            "caller passed: for a path whose separator is still undecided "
+            "(keys directly under the root) the other separator is escaped, "
+            "a root key like `www.example.com` is reported as three "
+            "segments and every path below it inherits the error".format(
+                src(bad[0].args[0]), sep))
+        return
+    chk.ok("C02-D5d", fi, strs[0], "alphabet entry `{}`".format(
+        src(strs[0])), "the caller's separator as given")
     pe = PEval()
     for raw, sp, want in RAW_SAMPLES:
         env = {sec: Const(raw), "str({})".format(sec): Const(raw),
